@@ -18,6 +18,8 @@
 From Asynq Require Export Base.
 
 (* ---------------------------------------------------------------- flush scripts *)
+Inductive rkind := KValue | KError.   (* FutureBase.value() / FutureBase.error() *)
+
 Inductive action :=
 | ASetAll                        (* for item in self.items: item.set_value(item._result)   (DebugBatch._flush 267-268) *)
 | ASet (k : nat) (v : val)       (* self.items[k].set_value(v)       (skipped when k >= len(self.items))            *)
@@ -25,7 +27,18 @@ Inductive action :=
 | ARaise (e : exn)               (* raise an Exception instance                                                      *)
 | ABase (e : exn)                (* raise a BaseException instance                                                   *)
 | ANew (v : val)                 (* create a request of the same kind through the registry while flushing            *)
-| ACancel (oe : option exn).     (* self.cancel(error) from inside the body                                          *)
+| ACancel (oe : option exn)      (* self.cancel(error) from inside the body                                          *)
+(* re-entrant requests made while the body runs (self._flushing is set, batching.py 111-122):        *)
+| ARead (k : nat) (kd : rkind) (catch : bool)
+                                 (* self.items[k].value() / .error() asked by the body itself; the result is logged;
+                                    an exception is swallowed (catch) or propagates out of the body                   *)
+| AReflush (catch : bool)        (* self.flush() called by the body                                                   *)
+| ASetRead (k : nat) (v : val) (j : nat) (kd : rkind)
+                                 (* self.items[k].set_value(v) after subscribing to its on_computed a callback that
+                                    asks self.items[j] for its value()/error() (a dependent of item k needing its
+                                    sibling); the callback logs what it got (exceptions included)                    *)
+| AReadBatch (kd : rkind) (catch : bool).
+                                 (* self.value() / self.error() asked by the body (REPAIRED behaviour, see batch_reread) *)
 
 (* ---------------------------------------------------------------- state *)
 Record item := mkI {
@@ -41,12 +54,32 @@ Record batch := mkB {
   bcancels : nat                 (* how many times the _cancel hook was called               *)
 }.
 
+Inductive res :=
+| RVal (v : val)
+| RRaise (e : exn)
+| RNoError
+| RErr (e : exn)
+| RBool (b : bool)
+| RUnit
+| RItem (i b : nat)            (* constructed item i, which joined batch b                              *)
+| RBatch (b : nat)
+| RNotComputed                 (* value() returned the internal "not computed" marker                   *)
+| RSkip.                       (* the op names a batch / item that does not exist                       *)
+
+Definition report_value (o : option outcome) : res :=
+  match o with Some (Ok v) => RVal v | Some (Err e) => RRaise e | None => RNotComputed end.
+Definition report_error (o : option outcome) : res :=
+  match o with Some (Ok _) => RNoError | Some (Err e) => RErr e | None => RNoError end.
+
 Inductive event :=
 | ENew (i b : nat)               (* item i constructed on batch b                            *)
 | EItem (i : nat) (o : outcome)  (* on_computed of item i fired; it observed outcome o       *)
 | EBody (b a : nat)              (* _flush body of batch b entered; registry points at a     *)
 | ECancel (b : nat)              (* _cancel hook of batch b called                           *)
-| EBatch (b : nat) (o : outcome). (* on_computed of batch b fired; it observed outcome o      *)
+| EBatch (b : nat) (o : outcome)  (* on_computed of batch b fired; it observed outcome o      *)
+| ERead (b i : nat) (r : res)    (* while the body of b ran, item i of b was asked for its value()/error(): r *)
+| EReflush (b : nat) (r : res)   (* while the body of b ran, b.flush() was called: r         *)
+| EBRead (b : nat) (r : res).    (* while the body of b ran, b.value()/b.error() was asked: r *)
 
 Record world := mkW {
   bat : nat -> batch;
@@ -155,6 +188,41 @@ Fixpoint set_all (w : world) (l : list nat) : world * option exn :=
     match r with Some e => (w1, Some e) | None => set_all w1 rest end
   end.
 
+(* A request for value()/error() of item i of self.items made while the body of b runs
+   (FutureBase.value 54-64 / error 87-99 -> BatchItemBase._compute 222-228 -> BatchBase.flush 82-83):
+   a complete item reports its outcome; a pending item of a finished batch is not computed by
+   BatchItemBase._compute (value() then returns the internal marker, error() None); a pending item of the
+   batch whose body is running reaches flush() while _flushing is set: BatchingError, from value() and
+   from error() alike - the body is NOT run again.  self.items only holds items constructed on self
+   (213-215; invariant i_listed in BatchProofs), so the item's batch is b; the model still looks at
+   ibatch and answers RSkip (outside the model: a nested flush of another batch) otherwise. *)
+Definition rep_of (kd : rkind) : option outcome -> res :=
+  match kd with KValue => report_value | KError => report_error end.
+
+Definition sibling_read (w : world) (b i : nat) (kd : rkind) : res :=
+  match iout (itm w i) with
+  | Some o => rep_of kd (Some o)
+  | None =>
+    let b' := ibatch (itm w i) in
+    match bout (bat w b') with
+    | Some _ => rep_of kd None
+    | None => if Nat.eqb b' b then RRaise E_BATCHING else RSkip
+    end
+  end.
+
+(* value()/error() of the batch itself asked while its body runs.  A finished batch (the body cancelled it)
+   reports its outcome.  For a pending batch this models the REPAIRED code (work/fixes/C11-compute-reentry.diff:
+   BatchBase._compute raises BatchingError while _flushing is set).  The unchanged code has no such guard:
+   FutureBase.value/error (futures.py 61-62, 96-97) call BatchBase._compute again, which runs the flush body a
+   second time nested inside the first - known finding reentrant-body:batch-value/error:body-ran-again. *)
+Definition batch_reread (w : world) (b : nat) (kd : rkind) : res :=
+  match bout (bat w b) with
+  | Some o => rep_of kd (Some o)
+  | None => RRaise E_BATCHING
+  end.
+
+Definition raised (r : res) : option exn := match r with RRaise e => Some e | _ => None end.
+
 (* one action of the body of batch b; Some e = the body raised e at this action *)
 Definition exec1 (w : world) (b : nat) (a : action) : world * option exn :=
   match a with
@@ -173,6 +241,30 @@ Definition exec1 (w : world) (b : nat) (a : action) : world * option exn :=
   | ABase e => (w, Some e)
   | ANew v => new_item w (active w) v
   | ACancel oe => (cancel w b oe, None)
+  | ARead k kd c =>
+    match nth_error (bitems (bat w b)) k with
+    | Some i => let r := sibling_read w b i kd in
+                (emit w (ERead b i r), if c then None else raised r)
+    | None => (w, None)
+    end
+  | AReflush c =>                      (* flush() 82: self._flushing (or is_computed()) -> BatchingError *)
+    (emit w (EReflush b (RRaise E_BATCHING)), if c then None else Some E_BATCHING)
+  | ASetRead k v j kd =>
+    match nth_error (bitems (bat w b)) k with
+    | Some i =>
+      let '(w1, r) := item_set w i (Ok v) in
+      match r with
+      | Some e => (w1, Some e)         (* already complete: the subscriber never fires *)
+      | None =>
+        match nth_error (bitems (bat w1 b)) j with
+        | Some i2 => (emit w1 (ERead b i2 (sibling_read w1 b i2 kd)), None)
+        | None => (w1, None)
+        end
+      end
+    | None => (w, None)
+    end
+  | AReadBatch kd c =>
+    let r := batch_reread w b kd in (emit w (EBRead b r), if c then None else raised r)
   end.
 
 Fixpoint exec (w : world) (b : nat) (acts : list action) : world * option exn :=
@@ -230,23 +322,6 @@ Inductive op :=
 | OBatchSet (b : nat) (v : val) | OBatchSetErr (b : nat) (e : exn)
 | OIsFlushed (b : nat) | OIsCancelled (b : nat) | OIsEmpty (b : nat)
 | OActive.
-
-Inductive res :=
-| RVal (v : val)
-| RRaise (e : exn)
-| RNoError
-| RErr (e : exn)
-| RBool (b : bool)
-| RUnit
-| RItem (i b : nat)            (* constructed item i, which joined batch b                              *)
-| RBatch (b : nat)
-| RNotComputed                 (* value() returned the internal "not computed" marker                   *)
-| RSkip.                       (* the op names a batch / item that does not exist                       *)
-
-Definition report_value (o : option outcome) : res :=
-  match o with Some (Ok v) => RVal v | Some (Err e) => RRaise e | None => RNotComputed end.
-Definition report_error (o : option outcome) : res :=
-  match o with Some (Ok _) => RNoError | Some (Err e) => RErr e | None => RNoError end.
 
 Definition of_raise (x : world * option exn) (ok : world -> res) : world * res :=
   match snd x with Some e => (fst x, RRaise e) | None => (fst x, ok (fst x)) end.
